@@ -38,27 +38,57 @@ func c20ErrClass(err error) int {
 	return 99
 }
 
-func implColNameToNumber(s string) string {
+func implColNameToNumber(s string) (out string) {
+	defer func() {
+		if r := recover(); r != nil {
+			out = fmt.Sprintf("panic %v", r)
+		}
+	}()
 	n, err := excelize.ColumnNameToNumber(s)
 	return okOrErr(strconv.Itoa(n), c20ErrClass(err), err)
 }
-func implColNumberToName(n int) string {
+func implColNumberToName(n int) (out string) {
+	defer func() {
+		if r := recover(); r != nil {
+			out = fmt.Sprintf("panic %v", r)
+		}
+	}()
 	s, err := excelize.ColumnNumberToName(n)
 	return okOrErr(hexb(s), c20ErrClass(err), err)
 }
-func implSplit(s string) string {
+func implSplit(s string) (out string) {
+	defer func() {
+		if r := recover(); r != nil {
+			out = fmt.Sprintf("panic %v", r)
+		}
+	}()
 	c, r, err := excelize.SplitCellName(s)
 	return okOrErr(hexb(c)+" "+strconv.Itoa(r), c20ErrClass(err), err)
 }
-func implJoin(col string, row int) string {
+func implJoin(col string, row int) (out string) {
+	defer func() {
+		if r := recover(); r != nil {
+			out = fmt.Sprintf("panic %v", r)
+		}
+	}()
 	s, err := excelize.JoinCellName(col, row)
 	return okOrErr(hexb(s), c20ErrClass(err), err)
 }
-func implCellToCoords(s string) string {
+func implCellToCoords(s string) (out string) {
+	defer func() {
+		if r := recover(); r != nil {
+			out = fmt.Sprintf("panic %v", r)
+		}
+	}()
 	c, r, err := excelize.CellNameToCoordinates(s)
 	return okOrErr(strconv.Itoa(c)+" "+strconv.Itoa(r), c20ErrClass(err), err)
 }
-func implCoordsToCell(col, row int, abs bool) string {
+func implCoordsToCell(col, row int, abs bool) (out string) {
+	defer func() {
+		if r := recover(); r != nil {
+			out = fmt.Sprintf("panic %v", r)
+		}
+	}()
 	s, err := excelize.CoordinatesToCellName(col, row, abs)
 	return okOrErr(hexb(s), c20ErrClass(err), err)
 }
@@ -239,6 +269,10 @@ func runC20(c *Ctx) {
 				cases = append(cases, mcase{Req: fmt.Sprintf("c20.coords_to_cell_name %d %d %s", col, r, tf(ab)), Impl: impl, Rel: "coords_to_cell_name"})
 				in := col >= 1 && col <= 16384 && r >= 1 && r <= 1048576
 				c.Count("coords", in, fmt.Sprint(col, r, ab))
+				if strings.HasPrefix(impl, "panic") {
+					c.Fail("oracle", "C20_cell_roundtrip", map[string]interface{}{"col": col, "row": r, "abs": ab}, fmt.Sprintf("CoordinatesToCellName(%d, %d, %v) does not return: %s", col, r, ab, impl), "")
+					continue
+				}
 				name, err := excelize.CoordinatesToCellName(col, r, ab)
 				if err == nil {
 					if !in {
@@ -367,7 +401,17 @@ func runC20(c *Ctx) {
 			co = []int{1 + c.Rng.Intn(16384), 1 + c.Rng.Intn(1048576), 1 + c.Rng.Intn(16384), 1 + c.Rng.Intn(1048576)}
 		}
 		ab := i%2 == 0
-		ref, err := excelize.VerifCoordinatesToRangeRef(co, ab)
+		var ref string
+		var err error
+		paniced := false
+		c.guard("C20_range_roundtrip", map[string]interface{}{"coordinates": co, "abs": ab}, func() {
+			paniced = true
+			ref, err = excelize.VerifCoordinatesToRangeRef(co, ab)
+			paniced = false
+		})
+		if paniced {
+			continue
+		}
 		cases = append(cases, mcase{Req: fmt.Sprintf("c20.coords_to_range_ref %d %d %d %d %s", co[0], co[1], co[2], co[3], tf(ab)), Impl: okOrErr(hexb(ref), c20ErrClass(err), err), Rel: "coords_to_range_ref"})
 		sorted, _ := excelize.VerifSortCoordinates(co)
 		cases = append(cases, mcase{Req: fmt.Sprintf("c20.sort_coords %d %d %d %d", co[0], co[1], co[2], co[3]), Impl: ints(sorted), Rel: "sort_coords"})
